@@ -205,3 +205,26 @@ def x2(cx: Cx, ob: Ob) -> None:
     from ..rules import state_closure
 
     state_closure(cx, ob)
+
+
+@obligation("C07-D5", "MODE tail shape of parse / compress_or_standardize / expand_or_standardize and the functions they delegate to: the unmodified input is echoed only under passthrough, None only in the default mode", floor=12)
+def d5(cx: Cx, ob: Ob) -> None:
+    from .c08 import check_tails
+
+    check_tails(cx, ob, ["parse", "compress_or_standardize", "expand_or_standardize", "compress", "expand"])
+
+
+@obligation("C07-D6", "is_uri classifies through compress, so compress must succeed exactly when parse_uri does: its success path tests nothing but the existence of the parsed reference (shared with C01-D4)", floor=2)
+def d6(cx: Cx, ob: Ob) -> None:
+    from .c01 import curie_join_check, is_parse_uri_of, is_uri_check
+
+    is_uri_check(cx, ob)
+    curie_join_check(cx, ob, "compress", is_parse_uri_of("uri"), "self.parse_uri(uri, ...)")
+
+
+@obligation("C07-X6", "LOOKUP None-discipline (shared with C02-D3): lookup results and str|None results are tested with `is None`, never by truthiness - the empty prefix, the empty URI prefix and the empty identifier are legitimate values", floor=40)
+def x6(cx: Cx, ob: Ob) -> None:
+    from ..rules import scan_none_discipline
+    from .c02 import none_scope
+
+    scan_none_discipline(cx, ob, none_scope(cx))
